@@ -285,6 +285,21 @@ def run(chk):
                     okst = d_ == Lin.const(hlen) - Lin.sym('len(_partial_len)') - Lin.sym('len(block)')
     chk.check(okst, 'C14-S2', AS, D, 'short chunk: stash all of it in _partial_len and leave the loop', '',
               'the short-chunk path does not stash the whole chunk and break (bytes lost or loop does not terminate)', node=W)
+    # the stashed length prefix is a one-shot state: on the path that decodes it (struct.unpack of _partial_len) it is emptied
+    # again before the path leaves that statement list; otherwise the next frame's prefix is "completed" with 0 more bytes and
+    # the old length is decoded again without consuming the new prefix
+    dec = [n for n in walk_no_nested(W) if isinstance(n, ast.Assign) and any(isinstance(c_, ast.Call) and dotted(c_.func) == 'struct.unpack' and len(c_.args) == 2
+                                                                            and any(isinstance(x_, ast.Name) and x_.id == '_partial_len' for x_ in ast.walk(c_.args[1]))
+                                                                            for c_ in ast.walk(n.value))]
+    for d_ in dec:
+        blk_ = getattr(d_._parent, 'body', []) if d_ in getattr(d_._parent, 'body', []) else getattr(d_._parent, 'orelse', [])
+        after_ = blk_[blk_.index(d_) + 1:] if d_ in blk_ else []
+        okclr = any(isinstance(x, ast.Assign) and unparse(x.targets[0]) == '_partial_len' and unparse(x.value) in ("b''", 'b""', 'bytes()') for x in after_)
+        chk.check(okclr, 'C14-S2', AS, D, 'the stashed prefix is emptied on the path that decodes it', '',
+                  'after `_size = struct.unpack(..., _partial_len)` the stash is not emptied in the same statement list: when the frame then takes the direct path '
+                  '(complete in this chunk) the stale 4 bytes survive, the next prefix is "completed" with 0 bytes and the previous length is decoded again', node=d_)
+    if not dec and any(isinstance(x_, ast.AugAssign) and unparse(x_.target) == '_partial_len' for x_ in walk_no_nested(W)):
+        raise AnalysisError('decompress: bytes are stashed in _partial_len but the stash is never decoded')
     # ---- S3
     dcs = [n for n in walk_no_nested(W) if isinstance(n, ast.Assign) and isinstance(n.value, ast.Call) and dotted(n.value.func) == 'blosc.decompress_ptr']
     if len(dcs) < 1:
